@@ -72,9 +72,11 @@ def evaluate(dst, meta):
 def main():
     if sys.argv[1] == '--recheck':
         base = os.path.join(VERIF, 'refactored')
-        for rid in sorted(os.listdir(base)):
-            mp = os.path.join(base, rid, 'meta.json')
-            if os.path.exists(mp): evaluate(os.path.join(base, rid), json.load(open(mp)))
+        jobs = [(os.path.join(base, rid), json.load(open(os.path.join(base, rid, 'meta.json')))) for rid in sorted(os.listdir(base))
+                if os.path.exists(os.path.join(base, rid, 'meta.json'))]
+        import multiprocessing
+        with multiprocessing.Pool(12) as pool:
+            pool.starmap(evaluate, jobs)
         return summary()
     outdir, resdir = sys.argv[1], sys.argv[2]
     for pid in sorted(os.listdir(outdir)):
